@@ -84,3 +84,10 @@ Theorem C17_served_context_was_accepted : forall cfg ps served pc uid i sop ts,
                       /\ an_ts (answer_one cfg p) = ts.
 Proof. exact served_request_was_accepted. Qed.
 Print Assumptions C17_served_context_was_accepted.
+
+(* class "1" accepted on contexts 1 and 5 with different transfer syntaxes: each request is served on its own context *)
+Example C17_dispatch_example :
+  let t := [(1, [49], [65]); (3, [50], [66]); (5, [49], [67])] in
+  dispatch [[49]; [50]] t 1 [49] = Some (1, [49], [65]) /\ dispatch [[49]; [50]] t 5 [49] = Some (5, [49], [67])
+  /\ dispatch [[49]; [50]] t 7 [49] = None /\ dispatch [[49]] t 3 [50] = None.
+Proof. exact dispatch_example. Qed.
